@@ -141,3 +141,83 @@ HARNESSES = [
                   _budget=3000) for a in (False, True)
              for e in (False, True)]),
 ]
+
+
+# --- depth bookkeeping of the tree walk --------------------------------------
+from ref import luaparse as RP
+from props import symtok as ST
+from props import C08 as P8
+from pico8.lua import parser as _parser
+
+
+def depth(x, p):
+    """One token per line: the indentation the writer gives each line must be
+    indentwidth x (blocks + brackets open at that token)."""
+    width = p['width']
+    if 'src' in p:
+        lx = lexer.Lexer(version=8)
+        lx.process_lines([p['src'].encode('latin-1')])
+        sig = [t for t in lx.tokens if not isinstance(
+            t, (lexer.TokSpace, lexer.TokNewline, lexer.TokComment))]
+    else:
+        pre = [t for t in P8.ctx_tokens(p['pre'].encode('latin-1'))
+               if not isinstance(t, (lexer.TokSpace, lexer.TokNewline))]
+        post = [t for t in P8.ctx_tokens(p['post'].encode('latin-1'))
+                if not isinstance(t, (lexer.TokSpace, lexer.TokNewline))]
+        alpha = ST.make_alphabet(trivia=False)
+        sig = pre + ST.tokens(x, p['k'], alpha) + post
+    toks = []
+    for t in sig:
+        toks.append(t)
+        toks.append(lexer.TokNewline(b'\n'))
+    vs = ST.views(toks)
+    try:
+        sk, depths = RP.parse(vs, want_depths=True)
+    except (RP.Reject, RP.Abstain):
+        x.tag('not a dialect program')
+        return
+    # a short if / ? must stay on one line: not representable one token per
+    # line, the reference rejects those layouts
+    pr = _parser.Parser(version=8)
+    try:
+        pr.process_tokens(toks)
+    except Exception:
+        x.tag('parser rejects')
+        return
+    w = lua.LuaFormatterWriter(tokens=toks, root=pr.root,
+                               args={'indentwidth': width})
+    try:
+        out = b''.join(w.to_lines())
+    except Exception as e:
+        x.tag('writer raises')
+        return
+    x.tag('formatted')
+    lines = out.split(b'\n')
+    x.out('nlines', len(lines))
+    sig_idx = [i for i in range(0, len(toks), 2)]
+    x.check('one output line per token', len(lines) == len(sig_idx) + 1)
+    if len(lines) != len(sig_idx) + 1:
+        return
+    for j, i in enumerate(sig_idx):
+        line = lines[j]
+        n = 0
+        while n < len(line) and line[n] == 32:
+            n += 1
+        x.check('line-initial token indented by width x open blocks and '
+                'brackets', n == width * depths[i],
+                info='token %d: %d spaces, depth %d' % (j, n, depths[i]))
+
+
+EVERY = ('do\nlocal x=1\nwhile x do\nx=f(a,{b,[c]=d},t[i])\nend\nrepeat\n'
+         'x=x+1\nuntil x\nif a then\nb()\nelseif c then\nd()\nelse\ne()\n'
+         'end\nfor i=1,2 do\nbreak\nend\nfor k,v in pairs(t) do\ngoto l\n'
+         'end\n::l::\nfunction m.n:o(p,...)\nreturn (p)\nend\nlocal function '
+         'q()\nend\ny=function()\nend\nend\n')
+HARNESSES.append(
+    Harness('depth', depth,
+            quick=[dict(Q, src=EVERY, width=2), dict(Q, src=EVERY, width=0),
+                   dict(Q, pre='do ', post=' end', k=1, width=2),
+                   dict(Q, pre='x=f(', post=')', k=1, width=3)],
+            thorough=[dict(Q, src=EVERY, width=w) for w in range(0, 9)] +
+                     [dict(Q, pre=a, post=b, k=2, width=2, _budget=2400)
+                      for a, b in P8.CONTEXTS if 'if (n)' not in a]))
